@@ -65,6 +65,10 @@ fn main() {
         println!("{}", v.join(" "));
         return;
     }
+    if args.len() >= 3 && args[1] == "gentable" {
+        consts::print_table(args[2].parse().unwrap_or(64));
+        return;
+    }
     if args.len() >= 2 && args[1] == "consts" {
         consts::print();
         return;
